@@ -1,5 +1,6 @@
 import KitModel.Go.Prelude
 import KitModel.CronSched
+import KitModel.CronSchedAccept
 /-!
 Driver for property C05: `kitdrv C05` reads the observable trace of one execution of the real
 `cron.Cron` (one event per line) and answers, per line, whether the model
@@ -56,46 +57,7 @@ structure Sim where
   states : List State := []
   dead : Bool := true
 
-def strip (s : State) : State := { s with log := [] }
-
-def insertNew (acc : List State) (s : State) : List State :=
-  if acc.contains s then acc else acc ++ [s]
-
-/-- τ-closure (all states reachable by internal labels, the given ones included). -/
-def closure (S : Scheds) : Nat → List State → List State → List State
-  | 0, acc, _ => acc
-  | fuel + 1, acc, frontier =>
-    match frontier with
-    | [] => acc
-    | _ =>
-      let succs := frontier.flatMap fun s =>
-        (internalLabels s).filterMap fun l => (step S s l).map strip
-      let fresh := succs.foldl (fun (fr : List State) s =>
-        if acc.contains s ∨ fr.contains s then fr else fr ++ [s]) []
-      closure S fuel (acc ++ fresh) fresh
-
-def close (S : Scheds) (ss : List State) : List State :=
-  let ss := ss.foldl insertNew []
-  closure S 64 ss ss
-
-def applyLabel (S : Scheds) (ss : List State) (l : Label) (post : State → Bool := fun _ => true) : List State :=
-  close S (ss.filterMap fun s => match step S s l with
-    | some s' => if post s' then some (strip s') else none
-    | none => none)
-
-def quiescent (s : State) : Bool :=
-  (match s.pc with
-   | .parked none => true
-   | .parked (some tm) => tm.fired.isNone
-   | .off => true
-   | _ => false)
-  && s.jobs.all (fun j => j.st != .launched)
-
 def showEntry (e : Entry) : String := s!"{e.id}:{e.next}:{e.prev}"
-
-def insertById (e : Entry) : List Entry → List Entry
-  | [] => [e]
-  | x :: xs => if e.id ≤ x.id then e :: x :: xs else x :: insertById e xs
 
 def showSnapshot (es : List Entry) : String :=
   ",".intercalate ((es.foldr insertById []).map showEntry)
@@ -115,10 +77,15 @@ def showState (s : State) : String :=
 
 def showStates (ss : List State) : String := " | ".intercalate ((ss.take 4).map showState)
 
-def indicesWhere (js : List Job) (p : Job → Bool) : List Nat :=
-  (List.range js.length).filter fun i => match js[i]? with
-    | some j => p j
-    | none => false
+/-- `id:next:prev,…` (empty string = no entries) -/
+def parseTriples (r : String) : Option (List (Nat × Nat × Nat)) :=
+  if r == "" then some []
+  else (r.splitOn ",").mapM fun w =>
+    match w.splitOn ":" with
+    | [a, b, c] => do
+      let a ← a.toNat?; let b ← b.toNat?; let c ← c.toNat?
+      pure (a, b, c)
+    | _ => none
 
 def handle (sim : Sim) (raw : String) : Sim × String :=
   let ln := parseLine raw
@@ -133,48 +100,35 @@ def handle (sim : Sim) (raw : String) : Sim × String :=
   else
     let S := mkScheds sim.scheds
     let before := sim.states
-    let next : Option (List State) :=
+    let obs : Option Obs :=
       match ln.op with
-      | "advance" => (ln.nat? "t").map fun t => applyLabel S before (.advance t)
+      | "advance" => (ln.nat? "t").map .advance
       | "add" =>
         match ln.nat? "sid", ln.nat? "id" with
-        | some sid, some id => some (applyLabel S before (.add sid) (fun s => s.nextID == id))
+        | some sid, some id => some (.add sid id)
         | _, _ => none
-      | "remove" => (ln.nat? "id").map fun id => applyLabel S before (.remove id)
-      | "entries" =>
-        (ln.get? "r").map fun r =>
-          applyLabel S (before.filter fun s => showSnapshot (snapshotOf s) == r) .snapshot
-      | "start" => some (applyLabel S before .start)
-      | "stop" => some (applyLabel S before .stop)
-      | "armed" =>
-        (ln.nat? "timer").map fun b => close S (before.filter fun s =>
-          match s.pc with
-          | .parked tm => tm.isSome == (b == 1)
-          | _ => false)
-      | "woke" =>
-        (ln.nat? "w").map fun w => close S (before.filter fun s => s.pc == .arm && s.now == w)
-      | "quiet" => some (close S (before.filter quiescent))
+      | "remove" => (ln.nat? "id").map .remove
+      | "entries" => ((ln.get? "r").bind parseTriples).map .entries
+      | "start" => some .start
+      | "stop" => some .stop
+      | "armed" => (ln.nat? "timer").map fun b => .armed (b == 1)
+      | "woke" => (ln.nat? "w").map .woke
+      | "quiet" => some .quiet
       | "begin" =>
         match ln.nat? "id", ln.nat? "c" with
-        | some id, some c => some (close S (before.flatMap fun s =>
-            if s.clock == c then
-              (indicesWhere s.jobs fun j => j.eid == id && j.st == .launched).filterMap fun i =>
-                (step S s (.jobBegin i)).map strip
-            else []))
+        | some id, some c => some (.jobBegin id c)
         | _, _ => none
       | "done" =>
         match ln.nat? "id", ln.nat? "c" with
-        | some id, some c => some (close S (before.flatMap fun s =>
-            (indicesWhere s.jobs fun j => j.eid == id && j.st == .begun c).filterMap fun i =>
-              (step S s (.jobDone i)).map strip))
+        | some id, some c => some (.jobDone id c)
         | _, _ => none
       | "ctx" =>
         match ln.nat? "k", ln.nat? "done" with
-        | some k, some d =>
-          some (if d == 1 then before.filter fun s => s.ctxs[k]? == some .done else before)
+        | some k, some d => some (.ctx k (d == 1))
         | _, _ => none
-      | "end" => some before
+      | "end" => some .finish
       | _ => none
+    let next : Option (List State) := obs.map (acceptStep S before)
     match next with
     | none => ({ sim with dead := true, states := [] }, s!"reject unparsable-line {raw.trimAscii.toString}")
     | some [] =>
